@@ -19,6 +19,7 @@ import CSD.Lemmas.PFCLoad
 import CSD.Lemmas.PFCMeta
 import CSD.Lemmas.RPDACImage
 import CSD.Lemmas.RPFCImage
+import CSD.Lemmas.HRPDACImage
 
 namespace CSD.Props.C06
 open CSD.Generated
@@ -136,5 +137,12 @@ theorem rpfc_image_reloads (d : RPFCImg.Img) (wf : RPFCImg.WF d) (rest : List UI
 
 theorem rpfc_loader_refuses_foreign (t : Nat) (ht : t < 2 ^ 32) (hne : t ≠ 214) (rest : List UInt8) :
     RPFCImg.load 214 (LogSeq.leBytes t 4 ++ rest) = none := RPFCImg.load_foreign 214 t ht hne rest
+
+
+/-- `StringDictionaryHASHRPDAC::load (save d ++ rest) = (d, rest)` on bytes: tag, counters, the grammar with its
+DAC sequences, and the hash table header of `HashDAC::save` (`tsize`, `n`, the occupancy bitmap as a
+BitSequenceRG image). -/
+theorem hashrpdac_image_reloads (d : HRPDACImg.Img) (wf : HRPDACImg.WF d) (rest : List UInt8) :
+    HRPDACImg.load (HRPDACImg.save d ++ rest) = some (d, rest) := HRPDACImg.load_save d wf rest
 
 end CSD.Props.C06
